@@ -17,8 +17,13 @@ def mbind(pat, e, k):
     return '(%s <- %s ;; %s)' % (pat, e, k)
 
 
+RESERVED_EXTRA = set()    # per-unit: rust locals that would shadow a Coq record projection
+
+
 def coqname(n):
     n = n.lstrip('_') or 'u'
+    if n in RESERVED_EXTRA:
+        return n + '_'
     if n in ('mod', 'in', 'at', 'as', 'fun', 'let', 'end', 'return', 'type', 'Type', 'Set', 'Prop', 'fix', 'if', 'then',
              'else', 'match', 'with', 'forall', 'exists', 'where', 'len'):
         n = n + '_'
@@ -404,7 +409,15 @@ class ImpTr:
             if rv[0] in ('block', 'unsafe', 'if', 'match') and self.needs_stmt_translation(rv):
                 v = self.value_block(rv, ty)
                 return '(%s <- %s ;; %s)' % (coqname(name), v, k())
-            t, _ = em.expr(rv, ty)
+            nb = len(em.binds)
+            try:
+                t, _ = em.expr(rv, ty)
+            except Unsupported as ex:
+                if rv[0] != 'if' or 'conditional value' not in str(ex):
+                    raise
+                del em.binds[nb:]
+                v = self.value_block(rv, ty)
+                return '(%s <- %s ;; %s)' % (coqname(name), v, k())
         else:
             t, _ = em.expr(('bin', op[:-1], lv, rv, ln), ty)
         binds = em.take_binds()
